@@ -206,8 +206,8 @@ TECHNIQUE = {
     'C20': 'ownership / frame obligations generated from the ast of /repo for every write site reachable from the execution entry points (structural, decided syntactically, no solver); '
            'deterministic two/three-thread schedules as bounded native stand-in',
 }
-MIN_T1 = {'C01': 75, 'C02': 85, 'C03': 42, 'C04': 80, 'C05': 140, 'C06': 0, 'C07': 88, 'C08': 26, 'C09': 38, 'C10': 34, 'C11': 47, 'C12': 3, 'C13': 20,
-          'C14': 14, 'C15': 5, 'C16': 24, 'C17': 5, 'C18': 58, 'C19': 39, 'C20': 100}
+MIN_T1 = {'C01': 75, 'C02': 85, 'C03': 42, 'C04': 80, 'C05': 150, 'C06': 0, 'C07': 88, 'C08': 30, 'C09': 44, 'C10': 34, 'C11': 47, 'C12': 3, 'C13': 24,
+          'C14': 18, 'C15': 5, 'C16': 24, 'C17': 5, 'C18': 58, 'C19': 39, 'C20': 100}
 for _p, _c in PROPS.items():
     _c['technique'] = TECHNIQUE[_p]
     _c['min_t1'] = MIN_T1[_p]
